@@ -65,6 +65,12 @@ def main():
             print(res[0], res[1], res[2], flush=True)
             for ln in res[3]:
                 print("   ", ln[:220])
+    os.makedirs(os.path.join(VERIF, "mutants", "results"), exist_ok=True)
+    if not only:
+        with open(os.path.join(VERIF, "mutants", "results", prop + ".json"), "w") as f:
+            json.dump({"property": prop, "tier": tier,
+                       "results": [{"mutant": r[0], "outcome": r[1], "repo_tests": r[2]}
+                                   for r in results]}, f, indent=1)
     surv = [r for r in results if not r[1].startswith("killed")]
     print(f"{prop}: {len(results) - len(surv)}/{len(results)} mutants killed")
     # restore evidence/replays polluted by mutant runs is the caller's job
